@@ -597,37 +597,40 @@ let run_clock (toks : string list) : string =
       List.map
         (fun e ->
           match String.split_on_char ':' e with
-          | [ "g"; w ] -> Model.CGet (Model.N0, n w)
-          | [ "r"; w; ts ] -> Model.CRegister (n w, n ts)
+          | [ "g"; w ] -> (false, Model.CGet (Model.N0, n w))
+          | [ "x"; w ] -> (true, Model.CGet (Model.N0, n w))     (* the caller gave up: the actor still handles the request *)
+          | [ "r"; w; ts ] -> (false, Model.CRegister (n w, n ts))
           | _ -> failwith "bad ev")
         evs
     in
     (* Clock::register_ts drops stamps of the clock's own node before they reach the actor *)
     let q' =
       List.map
-        (fun r ->
+        (fun (lost, r) ->
           match r with
           | Model.CRegister (_, ts) when hex_of_n (Model.ts_node ts) = hex_of_n (n node) -> None
-          | r -> Some r)
+          | r -> Some (lost, r))
         q
     in
-    let rec go c rs acc =
+    (* [dead]: the actor died handling a request nobody waited for; the next caller sees it *)
+    let rec go dead c rs acc =
       match rs with
       | [] -> List.rev acc
-      | None :: rest -> go c rest ("-" :: acc)
-      | Some r :: rest ->
+      | None :: rest -> go dead c rest ("-" :: acc)
+      | _ :: _ when dead -> List.rev ("panic" :: acc)
+      | Some (lost, r) :: rest ->
         (match r with
          | Model.CGet (_, w) ->
            (match Model.send w c with
-            | Model.HOk t, c' -> go c' rest (h t :: acc)
-            | _ -> List.rev ("panic" :: acc))
+            | Model.HOk t, c' -> go false c' rest ((if lost then "x" else h t) :: acc)
+            | _ -> if lost then go true c rest ("x" :: acc) else List.rev ("panic" :: acc))
          | Model.CRegister (w, ts) ->
            (match Model.recv w c ts with
             | Model.HPanic, _ -> List.rev ("panic" :: acc)
-            | _, c' -> go c' rest ("-" :: acc)))
+            | _, c' -> go false c' rest ("-" :: acc)))
     in
     ignore show_outs;
-    String.concat " " (go c0 q' [])
+    String.concat " " (go false c0 q' [])
   | [ "conc"; _; node; k; m; wall ] ->
     let total = int_of_string ("0x" ^ k) * int_of_string ("0x" ^ m) in
     let c0 = Model.mk_ts (n wall) Model.N0 (n node) in
